@@ -71,6 +71,10 @@ pub fn render(secs: i64, nanos: u32, r: &Rendering) -> String {
     let frac = format!("{:09}", nanos);
     s.push('.');
     s.push_str(&frac[..(r.digits.min(9)) as usize]);
+    // RFC 3339 puts no bound on the number of fraction digits: beyond the ninth they are below the clock's resolution
+    for i in 9..r.digits.min(60) {
+      s.push((b'0' + ((i as u32 * 7 + 3) % 10) as u8) as char);
+    }
   }
   match r.zulu % 3 {
     1 => s.push('Z'),
@@ -147,7 +151,7 @@ pub fn now() -> (i64, u32) {
 pub fn rendering() -> BoxedStrategy<Rendering> {
   (
     prop_oneof![3 => Just(0i16), 6 => -1439i16..=1439, 1 => Just(1439i16), 1 => Just(-1439i16), 2 => (-23i16..=23).prop_map(|h| h * 60)],
-    prop_oneof![3 => Just(0u8), 4 => 1u8..=9, 1 => Just(9u8), 1 => Just(3u8)],
+    prop_oneof![6 => Just(0u8), 8 => 1u8..=9, 2 => Just(9u8), 2 => Just(3u8), 2 => 10u8..=40, 1 => Just(10u8)],
     prop_oneof![8 => Just(0u8), 1 => Just(1u8), 1 => Just(2u8)],
     prop_oneof![5 => Just(0u8), 4 => Just(1u8), 1 => Just(2u8)],
   )
